@@ -18,10 +18,13 @@ s=('%s-%s'%(sys.argv[1],sys.argv[2])).encode(); out=b''
 while len(out)<3000: s=hashlib.sha256(s).digest(); out+=s
 sys.stdout.buffer.write(out)" "$seed" "$i" > "$corpus/seed$i"; done; dict=/dev/null; maxlen=4096 ;;
 esac
+# AddressSanitizer for the byte-level text targets (pest's unsafe string slicing is on their path); none for the two
+# heavy structured/differential targets (under ASan they run 10x slower and their resident set grows past any limit)
+case "$target" in peg_struct|meta_diff) san=none; tdir=$FZ/target-nosan ;; *) san=address; tdir=$FZ/target ;; esac
 cd $FZ || exit 2
 # cargo-fuzz sets RUSTFLAGS itself (which hides [build] rustflags of .cargo/config.toml) but appends the caller's
-RUSTFLAGS="--cfg pest_parser_pest_verif" CARGO_NET_OFFLINE=true cargo +nightly fuzz build --fuzz-dir . "$target" > $WORK/fuzz-build-$target.log 2>&1 || { echo "INCONCLUSIVE property=$prop: fuzz target $target did not build (see $WORK/fuzz-build-$target.log)" >&2; exit 2; }
-bin=$FZ/target/x86_64-unknown-linux-gnu/release/$target
+RUSTFLAGS="--cfg pest_parser_pest_verif" CARGO_NET_OFFLINE=true cargo +nightly fuzz build --fuzz-dir . --sanitizer $san --target-dir "$tdir" "$target" > $WORK/fuzz-build-$target.log 2>&1 || { echo "INCONCLUSIVE property=$prop: fuzz target $target did not build (see $WORK/fuzz-build-$target.log)" >&2; exit 2; }
+bin=$tdir/x86_64-unknown-linux-gnu/release/$target
 log=$WORK/fuzz-$target.log
 ( cd $WORK && "$bin" -artifact_prefix="$art/" -runs="$runs" -seed="$seed" -max_len=$maxlen $( [ "$dict" = /dev/null ] || echo -dict="$dict" ) -len_control=0 -timeout=20 -rss_limit_mb=4096 -jobs="$jobs" -workers="$jobs" "$corpus" > "$log" 2>&1 )
 rm -f $WORK/fuzz-[0-9]*.log
@@ -58,21 +61,26 @@ data=open(a,'rb').read()
 if target=="meta_diff":
     sel=data[0] if data else 0; data=data[1:]
 text=data.decode('utf-8','replace')
-case={"text":text} if prop in ("C09","C14") else {"input":text}
+case={"text":text} if prop in ("C09","C14") else ({"input":text} if prop=="C18" else {"libfuzzer_bytes_hex":data.hex()})
 if target=="meta_diff":
     case["rule_selector_byte"]=sel
-doc={"property":prop,"signature":"found-by-libfuzzer:crash-without-oracle-message","message":f"libFuzzer artifact {a}","case":case}
+panics=[l.strip() for l in open(sys.argv[5],errors='replace') if l.startswith("panic: ")][:3]
+doc={"property":prop,"signature":"found-by-libfuzzer:crash-without-oracle-message","message":f"libFuzzer artifact {a}; panics seen in the campaign log: {panics}","case":case}
 # the oracle inside the target prints the exact replay record; prefer it when it is for this input
 import re
 for line in open(sys.argv[5],errors='replace'):
     if line.startswith("PV-REPLAY-JSON "):
         try:
             d=json.loads(line[len("PV-REPLAY-JSON "):])
-            if d["case"].get("text",d["case"].get("input"))==text: doc=d
+            if d["case"].get("text",d["case"].get("input"))==text or (target=="peg_struct" and doc["signature"].startswith("found-by-libfuzzer")): doc=d
         except Exception: pass
+# a rider oracle inside the target may belong to another property: the record says which
+import os
+if doc["property"]!=prop:
+    out=out.replace(f"/replays/{prop}/",f"/replays/{doc['property']}/"); os.makedirs(os.path.dirname(out),exist_ok=True)
 json.dump(doc,open(out,"w"))
+print(f"VIOLATION property={doc['property']} replay={out}")
 PY
-  echo "VIOLATION property=$prop replay=$out"
   grep -h "PV-VIOLATION" "$log" | head -2 | cut -c1-400
   rc=1
 done
